@@ -29,7 +29,7 @@ STAGES = {
             S("machine-1p", "^TestC07$", quick=200, thorough=2000, shards=(4, 16), timeout=("15m", "90m"), env={"GOMAXPROCS": "1"}),
             S("parallel-race", "^TestC07Parallel$", quick=80, thorough=2000, shards=(4, 16), race=True, timeout=("15m", "90m"))],
     "C08": [S("regress", "^TestC08Regress$|^TestC08MultiStream$"),
-            S("limits", "^TestC08$", quick=250, thorough=2500, shards=(6, 16), timeout=("15m", "90m")),
+            S("limits", "^TestC08$", quick=250, thorough=2500, shards=(6, 16), timeout=("15m", "90m"), shrinktime="90s"),
             S("bombs", "^TestC08Bombs$", tiers=("thorough",))],
     "C09": [S("regress", "^TestC09Regress$"),
             S("matrix", "^TestC09$", shards=(8, 16)),
@@ -80,7 +80,7 @@ STAGES = {
             S("writes", "^TestC19Write$", quick=800, thorough=40000, shards=(1, 8)),
             S("concurrent-race", "^TestC19Concurrent$", quick=300, thorough=20000, shards=(2, 16), race=True)],
     "C20": [S("lag", "^TestC20Lag$", shards=(6, 6)),
-            S("histories", "^TestC20$", quick=120, thorough=1500, shards=(6, 16))],
+            S("histories", "^TestC20$", quick=120, thorough=1500, shards=(6, 16), shrinktime="90s")],
 }
 
 LEVELS = {
